@@ -5,7 +5,7 @@ import zlib
 
 from ..docmodel import word
 
-RTF_SUPPORTS = {"p", "h", "tbl", "r", "tab", "br", "del", "fn", "cm", "header", "footer"}
+RTF_SUPPORTS = {"r.acc", "r.num", "p", "h", "tbl", "r", "tab", "br", "del", "fn", "cm", "header", "footer"}
 
 
 # ----------------------------------------------------------------------------- RTF
@@ -26,12 +26,17 @@ def _rtf_escape(s: str) -> str:
     return "".join(out)
 
 
+def _rtf_word(i: int) -> str:
+    """A token word; non-ASCII letters as \\'xx escapes of code page 1252 (the blank that follows is text)."""
+    return "".join(ch if ord(ch) < 128 else "\\'%02x" % ch.encode("cp1252")[0] for ch in word(i))
+
+
 def _rtf_inl(inls) -> str:
     out = []
     for i in inls:
         t = i[0]
         if t == "r":
-            out.append(word(i[1]))
+            out.append(_rtf_word(i[1]))
         elif t == "tab":
             out.append("\\tab ")
         elif t == "br":
@@ -39,9 +44,9 @@ def _rtf_inl(inls) -> str:
         elif t == "del":
             out.append("{\\deleted " + _rtf_inl(i[1]) + "}")
         elif t == "fn":
-            out.append("{\\footnote\\pard\\plain " + word(i[1]) + "}")
+            out.append("{\\footnote\\pard\\plain " + _rtf_word(i[1]) + "}")
         elif t == "cm":
-            out.append("{\\*\\atnid rev}{\\*\\atnauthor rev}{\\*\\annotation\\pard\\plain " + word(i[1]) + "}")
+            out.append("{\\*\\atnid rev}{\\*\\atnauthor rev}{\\*\\annotation\\pard\\plain " + _rtf_word(i[1]) + "}")
         elif t in ("a", "ins", "isdt"):
             out.append(_rtf_inl(i[1]))
         else:
@@ -84,7 +89,11 @@ def write_rtf(doc: dict) -> bytes:
     if doc.get("footer"):
         head += "{\\footer\\pard\\plain " + _rtf_inl(doc["footer"]) + "\\par}\n"
     if "pages" in doc:
-        body = "\\page\n".join(_rtf_blocks(pg) for pg in doc["pages"])
+        body = ""
+        for k, pg in enumerate(doc["pages"]):
+            if k:       # every second break is a section break of kind "page" instead of \page
+                body += "\\page\n" if k % 2 else "\\sect\\sectd\\sbkpage\n"
+            body += _rtf_blocks(pg)
     else:
         body = _rtf_blocks(doc.get("blocks", []))
     return (head + body + "}").encode("ascii")
@@ -128,6 +137,10 @@ def write_pdf(pages: list, props: dict | None = None, images: dict | None = None
                           + d + b"\nendstream")
             xobjs += b"/Im%d %d 0 R " % (k, io_)
             content.append(b"q 50 0 0 50 72 %d cm /Im%d Do Q" % (100 + 60 * k, k))
+        if not lines and not (images or {}).get(pi) and pi % 2 == 0:
+            # a blank page needs no content stream: /Contents is optional (every second blank page is written so)
+            kids.append(add(b"<< /Type /Page /Parent %d 0 R /MediaBox [0 0 612 792] /Resources << >> >>" % pages_id))
+            continue
         stream = b"\n".join(content)
         cid = add(b"<< /Length %d >>\nstream\n" % len(stream) + stream + b"\nendstream")
         res = b"<< /Font << /F1 %d 0 R >> " % font + (b"/XObject << " + xobjs + b">> " if xobjs else b"") + b">>"
@@ -166,6 +179,13 @@ def _pdf_utf16(s: str) -> bytes:
 def write_plain(lines: list, kind: str = "txt") -> bytes:
     """lines: list of lists of token ids.  txt/md: one line each, tokens space separated;
     csv/tsv: one row each; json: array of arrays of strings."""
+    if sum(len(ln) for ln in lines) % 2 == 0 and lines and kind != "json":
+        # every second file starts with the UTF-8 signature (byte-order mark), as Windows editors write it
+        return b"\xef\xbb\xbf" + _plain_body(lines, kind)
+    return _plain_body(lines, kind)
+
+
+def _plain_body(lines: list, kind: str) -> bytes:
     if kind == "csv":
         return ("\n".join(",".join(word(i) for i in ln) for ln in lines) + "\n").encode()
     if kind == "tsv":
